@@ -46,6 +46,10 @@ function makeContext(trace) {
   return ctx;
 }
 
+function isTimeout(e) {
+  return !!(e && (e.code === 'ERR_SCRIPT_EXECUTION_TIMEOUT' || /execution timed out/i.test(String(e.message))));
+}
+
 function errName(e) {
   try {
     if (e && typeof e === 'object' && typeof e.name === 'string') return e.name;
@@ -91,7 +95,7 @@ async function runGraph(files, entry) {
       importModuleDynamically: async (spec, ref) => {
         const t = getMod(resolveSpec(files, spec, ref.identifier));
         if (t.status === 'unlinked') await t.link(linker);
-        if (t.status !== 'evaluated' && t.status !== 'errored') await t.evaluate({ timeout: 2000 });
+        if (t.status !== 'evaluated' && t.status !== 'errored') await t.evaluate({ timeout: 30000 });
         if (t.status === 'errored') throw t.error;
         return t;
       },
@@ -103,8 +107,9 @@ async function runGraph(files, entry) {
   try {
     const m = getMod(entry);
     await m.link(linker);
-    await m.evaluate({ timeout: 2000 });
+    await m.evaluate({ timeout: 30000 });
   } catch (e) {
+    if (isTimeout(e)) return { trace, err: 'timeout', timeout: true };
     trace.push('threw:' + errName(e));
     err = String(e && e.message || e).slice(0, 200);
   }
@@ -123,15 +128,16 @@ async function runBundle(b) {
         importModuleDynamically: async (spec) => { throw new Error('bundle imports ' + spec + ' at run time'); },
       });
       await m.link((spec) => { throw new Error('bundle has an unresolved import of ' + spec); });
-      await m.evaluate({ timeout: 2000 });
+      await m.evaluate({ timeout: 30000 });
     } else if (b.format === 'cjs') {
       const fn = vm.runInContext('(function (module, exports, require) { "use strict";\n' + b.code + '\n})', ctx, { filename: b.name });
       const mod = { exports: {} };
       fn(mod, mod.exports, (spec) => { throw new Error('bundle requires ' + spec + ' at run time'); });
     } else {
-      vm.runInContext('"use strict";\n' + b.code, ctx, { filename: b.name, timeout: 2000 });
+      vm.runInContext('"use strict";\n' + b.code, ctx, { filename: b.name, timeout: 30000 });
     }
   } catch (e) {
+    if (isTimeout(e)) return { name: b.name, trace, err: 'timeout', timeout: true };
     trace.push('threw:' + errName(e));
     err = String(e && e.message || e).slice(0, 200);
   }
